@@ -169,11 +169,11 @@ class Formatter(FormatterInterface):
 
     def _format_number(self, x):
         """Format a number."""
-        # Use 16sf for precision (good for float64 or less)
+        # Use 17sf: the fewest digits that round-trip every float64 exactly
         if isinstance(x, complex):
-            return f"({x.real:.16}+I*{x.imag:.16})"
+            return f"({x.real:.17}+I*{x.imag:.17})"
         elif isinstance(x, float):
-            return f"{x:.16}"
+            return f"{x:.17}"
         return str(x)
 
     def _build_initializer_lists(self, values):
